@@ -468,3 +468,96 @@ func ruleJoiningConsumerEntersEachStreamOnce(c *eng.Ctx) {
 	})
 	c.Check(ok, "a joining consumer is pushed once per stream of its stream set", c.P.Pos(fn.Pos()), "the streams iterated are the keys of cons.streams", "addConsumer does not iterate the consumer's stream set (cons.streams): a list taken from the join request can name a stream twice, the consumer then sits twice in that stream's heap, and the entry left behind when it leaves is still handed partitions — partitions assigned to nobody who is a member")
 }
+
+// ruleRebuildDoesNotBoundSizesBySegmentLimit (R05.8 extension): a batch is appended whole after the roll check, so one
+// message set can be larger than the segment's size limit. The index rebuild's plausibility test on a decoded size is
+// therefore never a comparison with that limit (a valid oversized set would be taken for garbage and the log cut there).
+func ruleRebuildDoesNotBoundSizesBySegmentLimit(c *eng.Ctx) {
+	fn := c.Fn(cl + "(*segment).rebuildIndex")
+	if fn == nil {
+		return
+	}
+	limit := eng.Or(eng.LoadNamed("maxBytes", nil), eng.LoadNamed("MaxSegmentBytes", nil))
+	var sizes []ssa.Value
+	for _, cs := range eng.CallsIn(fn, cl+"messageSet.Size") {
+		if v, isV := cs.(ssa.Value); isV {
+			sizes = append(sizes, v)
+		}
+	}
+	if len(sizes) == 0 {
+		c.Unresolved("the decoded size of a message set (messageSet.Size) in rebuildIndex")
+		return
+	}
+	isSize := func(v ssa.Value) bool {
+		for _, s := range phiSources(v) {
+			for _, z := range sizes {
+				if eng.Strip(s) == z {
+					return true
+				}
+			}
+		}
+		return false
+	}
+	bad := ""
+	eng.Instrs(fn, func(in ssa.Instruction) {
+		bo, ok := in.(*ssa.BinOp)
+		if !ok {
+			return
+		}
+		switch bo.Op {
+		case token.LSS, token.GTR, token.LEQ, token.GEQ:
+		default:
+			return
+		}
+		if (isSize(bo.X) && limit(eng.Strip(bo.Y))) || (isSize(bo.Y) && limit(eng.Strip(bo.X))) {
+			bad = c.Pos(in)
+		}
+	})
+	c.Check(bad == "", "the index rebuild does not take the segment size limit for a bound on one message set", c.P.Pos(fn.Pos()), "a decoded size is tested against constants and what is left of the file only", "rebuildIndex compares the decoded size of a message set with the segment's size limit ("+bad+"): a batch is appended whole once the roll check has passed, so a valid set can exceed that limit — a rebuild after a crash stops at it and setupIndex cuts the log there, destroying the message and everything behind it in the segment")
+}
+
+// ruleCipherIsBuiltFromTheValuesKey (R17.4 extension): the AEAD that seals or opens a value is built, in that call, from the
+// data key handed in for that value. A cipher kept on the handler belongs to whichever key came first: a handler that has
+// read a value sealed under an earlier data key seals new values under that old key while storing the new wrapped key
+// beside them — nothing can open them again.
+func ruleCipherIsBuiltFromTheValuesKey(c *eng.Ctx) {
+	n := 0
+	for _, name := range []string{"encryptData", "decryptData"} {
+		fn := c.Fn("server/encryption.(*LocalEncryptionHandler)." + name)
+		if fn == nil {
+			continue
+		}
+		eng.Instrs(fn, func(in ssa.Instruction) {
+			call, ok := in.(*ssa.Call)
+			if !ok || !call.Call.IsInvoke() {
+				return
+			}
+			m := call.Call.Method.Name()
+			if m != "Seal" && m != "Open" {
+				return
+			}
+			n++
+			okChain := false
+			for _, src := range phiSources(call.Call.Value) {
+				gcm, isE := src.(*ssa.Extract)
+				if !isE || gcm.Index != 0 || !eng.Call(-1, "crypto/cipher.NewGCM")(gcm.Tuple) {
+					okChain = false
+					break
+				}
+				blk, isB := eng.Strip(eng.AsCall(gcm.Tuple).Call.Args[0]).(*ssa.Extract)
+				if !isB || blk.Index != 0 || !eng.Call(-1, "crypto/aes.NewCipher")(blk.Tuple) {
+					okChain = false
+					break
+				}
+				okChain = eng.Param("dek")(eng.AsCall(blk.Tuple).Call.Args[0])
+				if !okChain {
+					break
+				}
+			}
+			c.Check(okChain, "the cipher that does "+m+" in "+name+" is built from the key of this value", c.Pos(in), "cipher.NewGCM(aes.NewCipher(dek)) in the same call", name+" runs "+m+" on a cipher that is not built in this call from the data key it was handed ("+eng.Describe(call.Call.Value)+"): a cipher remembered on the handler belongs to the first key it met — after a restart a handler that first opens an old value seals every new value under the old key next to the new wrapped key, and those values can never be opened")
+		})
+	}
+	if n < 2 {
+		c.Unresolved("the Seal / Open calls of encryptData and decryptData")
+	}
+}
